@@ -109,4 +109,15 @@ theorem typeInfer_sound {ctx : Ctx} {fuel : Nat} {t t'' : Skel} (h : typeInfer c
         rw [linv.1]
         exact post.sb
 
+-- helpers for the non-vacuity examples in Props.lean
+theorem ok_of_toOption {α : Type} {r : Except Err α} {a : α} (h : r.toOption = some a) : r = .ok a := by
+  cases r with
+  | error e => simp [Except.toOption] at h
+  | ok b => simp [Except.toOption] at h; rw [h]
+
+theorem exists_ok_of_isSome {α : Type} {r : Except Err α} (h : r.toOption.isSome = true) : ∃ a, r = .ok a := by
+  cases r with
+  | error e => simp [Except.toOption] at h
+  | ok b => exact ⟨b, rfl⟩
+
 end Holpy.C08
